@@ -65,9 +65,37 @@ func reversedPairs(m object.Map) []string {
 	return rev
 }
 
+// mapParent: the operand of a rest / range / `+` that produced the current map, with its value at that time.  The result of these
+// operations is a NEW map: whatever happens to it later (update or delete of an existing key in place, for large maps) must not
+// show through the operand (seeded change C11-5: BigMap.Rest/Range returned capacity-clipped sub-slices of the operand's storage).
+type mapParent struct {
+	m    object.Map
+	wire string
+}
+
+// the observation of a history in which an operand changed: well-formed for the driver, equal to no map's observation
+const mapAliasObs = "len=999999;rep=ALIAS-operand-of-rest-range-append-changed;kv=;get=;pr=;fst=;eq="
+
+func parentsChanged(ps []mapParent) bool {
+	for _, p := range ps {
+		if toWire(p.m) != p.wire {
+			return true
+		}
+	}
+	return false
+}
+
 func mapRunAPI(keys []string, ops []string) string {
 	var cur object.Object = object.NULL
+	var parents []mapParent
+	defer func() { parents = nil }()
 	for _, op := range ops {
+		if parentsChanged(parents) {
+			return mapAliasObs
+		}
+		if pm, ok := cur.(object.Map); ok && (op[0] == 'R' || op[0] == 'G' || op[0] == 'A') {
+			parents = append(parents, mapParent{pm, toWire(pm)})
+		}
 		if op[0] == 'L' {
 			cur = buildLiteral(wirePairs(op[1:]))
 			continue
@@ -92,6 +120,9 @@ func mapRunAPI(keys []string, ops []string) string {
 			hi, _ := strconv.ParseInt(lh[1], 10, 64)
 			cur = object.Range(m, lo, hi)
 		}
+	}
+	if parentsChanged(parents) {
+		return mapAliasObs
 	}
 	if cur.Type() == object.NIL {
 		return "n"
@@ -121,8 +152,28 @@ func mapRunSrc(keys []string, ops []string) string {
 		return res
 	}
 	ev("m=nil")
+	np := 0
+	var pwires []string
+	srcParentsChanged := func() bool {
+		for i, w := range pwires {
+			if toWire(ev(fmt.Sprintf("p9_%d", i))) != w {
+				return true
+			}
+		}
+		return false
+	}
 	for _, op := range ops {
 		var res object.Object
+		if srcParentsChanged() {
+			return mapAliasObs
+		}
+		if op[0] == 'R' || op[0] == 'G' || op[0] == 'A' {
+			if pm, ok := ev("m").(object.Map); ok {
+				ev(fmt.Sprintf("p9_%d=m", np)) // keep the operand under another name
+				pwires = append(pwires, toWire(pm))
+				np++
+			}
+		}
 		switch op[0] {
 		case 'L':
 			res = ev("m=" + srcLiteral(wirePairs(op[1:])))
@@ -148,6 +199,9 @@ func mapRunSrc(keys []string, ops []string) string {
 		if ev("m").Type() == object.NIL {
 			break
 		}
+	}
+	if srcParentsChanged() {
+		return mapAliasObs
 	}
 	cur := ev("m")
 	if cur.Type() == object.NIL {
@@ -211,8 +265,8 @@ type mapState struct {
 // state after a history (through the API): canonical key and length; ok=false if the variable is not a map any more
 func mapStateOf(hist []string) (key string, n int, ok bool) {
 	obs := mapRunAPI(nil, hist)
-	if obs == "n" || strings.Contains(obs, "rep=E") {
-		return obs, 0, false
+	if obs == "n" || strings.Contains(obs, "rep=E") || strings.Contains(obs, "rep=ALIAS") || !strings.HasPrefix(obs, "len=") {
+		return obs, 0, false // (also the ALIAS observation: the case is emitted by the caller and the model disagrees)
 	}
 	f := strings.Split(obs, ";")
 	n, _ = strconv.Atoi(f[0][4:])
